@@ -17,6 +17,9 @@ func main() {
 	commands["client"] = cmdClient
 	commands["e2e"] = cmdE2E
 	commands["relay"] = cmdRelay
+	commands["activation"] = cmdActivation
+	commands["addr"] = cmdAddr
+	commands["acthelper"] = cmdActHelper
 	if len(os.Args) < 2 {
 		fmt.Fprintln(os.Stderr, "usage: vdriver <command> [flags]")
 		os.Exit(2)
